@@ -326,6 +326,15 @@ class EndToEnd(Part):
                     seq.append(rec['layer_name'])
             if len(seq) != len(set(seq)):
                 viol.append(('C10/layer-not-contiguous', 'layer sequence of executed tests: %s' % seq))
+        # --list-tests is the other place where the layer order shows
+        spec = common.with_prefix(case['spec'])
+        lrun = drive.run_inproc(spec, common.args_of({'layer': list(case['layer']), 'list': True}))
+        viol += common.run_escaped(lrun, 'C10')
+        if lrun.exc is None:
+            listed = [ln.replace(spec['mp'], '') for ln, _ in parse.parse(lrun.out).listing]
+            if listed != headers[0]:
+                viol.append(('C10/listing-order-differs-from-run', '--list-tests lists the layers as %s, the run announces %s'
+                             % (listed, headers[0])))
         if headers[0] != headers[1]:
             viol.append(('C10/discovery-order-dependent', 'headers %s vs %s after renaming/reordering modules'
                          % (headers[0], headers[1])))
